@@ -38,6 +38,7 @@ type contCase struct {
 	CliToks2  []string // second invocation of the same application object
 	Argv2     []string
 	Env       EnvState
+	EnvAfter  *EnvState // when set: the environment installed between the declarations and Run (must not matter)
 	States    []string
 	Shape     string
 }
@@ -46,6 +47,9 @@ func (c *contCase) Describe() interface{} {
 	m := map[string]interface{}{"decl": c.Decl.Describe(), "spec": c.App.Root.Spec, "argv": c.Argv, "env": c.Env.Describe(), "env_states": c.States, "cli_values": c.CliToks, "second_invocation_argv": c.Argv2}
 	if c.Extra != nil {
 		m["extra_decl"] = c.Extra.Describe()
+	}
+	if c.EnvAfter != nil {
+		m["env_installed_after_the_declarations"] = c.EnvAfter.Describe()
 	}
 	return m
 }
@@ -103,7 +107,12 @@ func drawEnvContent(t *Tape, k ValKind, state int) (string, bool) {
 // genContainer draws the structural part first (kind, opt/arg, default, env list and states,
 // number of command-line values, spec shape) — these are the digits swept by the enumerated
 // phase — and then the tokens.
-func genContainer(t *Tape) *contCase {
+func genContainer(t *Tape) *contCase { return genContainerOpt(t, false) }
+
+// genContainerOpt: with yieldProbe the application also declares a simulator-owned custom value given once on
+// the command line whose Set is a scheduling point, so that a scheduled world can switch processes in the
+// middle of the phase in which the library fills the variables.
+func genContainerOpt(t *Tape, yieldProbe bool) *contCase {
 	kind := ValKind(t.Draw(7))
 	isArg := t.Draw(2) == 1
 	nonZeroDef := t.Draw(2) == 1
@@ -192,6 +201,14 @@ func genContainer(t *Tape) *contCase {
 		}
 	}
 
+	var probeDecl *Decl
+	if yieldProbe {
+		probeDecl = &Decl{Kind: KVar, Name: "q quux", Probe: &ProbeSpec{YieldInSet: true}}
+		extraArgv = append(extraArgv, []string{"-q=1", "--quux=2", "-q3"}[t.Draw(3)])
+		if spec != "[OPTIONS]" && !strings.HasPrefix(spec, "[OPTIONS]") {
+			spec = "[-q] " + spec
+		}
+	}
 	// command-line occurrences
 	mkArgv := func(n int, extraArgv []string) (cliToks []string, argv []string) {
 		var occ [][]string
@@ -276,12 +293,38 @@ func genContainer(t *Tape) *contCase {
 	}
 	c.CliToks2, c.Argv2 = mkArgv(n2, nil)
 
+	// environment timeline: sometimes the host program changes the variables after declaring
+	if t.Draw(3) == 0 {
+		after := c.Env
+		for i := range d.EnvVars {
+			switch t.Draw(3) {
+			case 0:
+				after.Unset(i)
+			case 1:
+				content, set := drawEnvContent(t, kind, 2)
+				if set {
+					after.Set(i, content)
+				}
+			}
+		}
+		if t.Draw(2) == 0 {
+			after.Set(5, "ylate")
+		}
+		c.EnvAfter = &after
+	}
 	root := &CmdDecl{Name: "app", Spec: spec, Decls: []*Decl{d}, Action: CB{Kind: CBReturn}}
 	if c.Extra != nil {
 		if t.Draw(2) == 1 {
 			root.Decls = []*Decl{c.Extra, d}
 		} else {
 			root.Decls = append(root.Decls, c.Extra)
+		}
+	}
+	if probeDecl != nil {
+		if t.Draw(2) == 1 {
+			root.Decls = append([]*Decl{probeDecl}, root.Decls...)
+		} else {
+			root.Decls = append(root.Decls, probeDecl)
 		}
 	}
 	c.App = &AppDecl{Root: root, Policy: flag.ContinueOnError}
@@ -304,30 +347,58 @@ type contRun struct {
 
 func runContainer(c *contCase) *contRun {
 	c.Env.Apply()
-	p := NewProc(0)
-	r := &contRun{p: p}
-	RunProc(p, func() error {
-		r.inst = Build(c.App, p)
-		return r.inst.Cli.Run(c.Argv)
-	})
 	defer EnvState{}.Apply()
-	if r.inst != nil {
-		r.action = r.inst.ActionSnap
-		r.final = r.inst.Snapshot()
-	}
-	r.accepted = p.End == EndReturned && p.Err == nil && len(p.Observed()) == 1 && p.Observed()[0] == "ACT:r"
-	if r.accepted && r.inst != nil {
-		// history: the same application object parses a second command line
-		p2 := NewProc(1)
-		r.inst.Proc = p2
-		r.inst.ActionSnap = nil
-		RunProc(p2, func() error { return r.inst.Cli.Run(c.Argv2) })
-		r.p2 = p2
-		r.accepted2 = p2.End == EndReturned && p2.Err == nil && len(p2.Observed()) == 1
-		r.action2 = r.inst.ActionSnap
-		r.final2 = r.inst.Snapshot()
-	}
+	pr, r := contPrepare(c, 0, nil)
+	RunProc(pr.Proc, pr.Body)
+	pr.Finish(nil)
 	return r
+}
+
+// contPrepare splits a container case into the body of its simulated process and what follows
+// (second invocation of the same object, then the property's verdict).
+func contPrepare(c *contCase, id int, verdict func(c *contCase, r *contRun, st *Stats) *Violation) (*Prepared, *contRun) {
+	p := NewProc(id)
+	r := &contRun{p: p}
+	body := func() error {
+		r.inst = Build(c.App, p)
+		if c.EnvAfter != nil {
+			c.EnvAfter.Apply()
+		}
+		return r.inst.Cli.Run(c.Argv)
+	}
+	finish := func(st *Stats) *Violation {
+		if r.inst != nil {
+			r.action = r.inst.ActionSnap
+			r.final = r.inst.Snapshot()
+		}
+		r.accepted = p.End == EndReturned && p.Err == nil && len(p.Observed()) == 1 && p.Observed()[0] == "ACT:r"
+		if r.accepted && r.inst != nil {
+			// history: the same application object parses a second command line
+			p2 := NewProc(10 + id)
+			r.inst.Proc = p2
+			r.inst.ActionSnap = nil
+			RunProc(p2, func() error { return r.inst.Cli.Run(c.Argv2) })
+			r.p2 = p2
+			r.accepted2 = p2.End == EndReturned && p2.Err == nil && len(p2.Observed()) == 1
+			r.action2 = r.inst.ActionSnap
+			r.final2 = r.inst.Snapshot()
+		}
+		if verdict != nil {
+			return verdict(c, r, st)
+		}
+		return nil
+	}
+	return &Prepared{Proc: p, Body: body, Finish: finish}, r
+}
+
+func contPairExec(g *genericPair, st *Stats, verdict func(c *contCase, r *contRun, st *Stats) *Violation) *Violation {
+	return execGenericPair(g, st, func(c Case, id int) *Prepared {
+		pr, _ := contPrepare(c.(*contCase), id, verdict)
+		return pr
+	}, func(c Case) EnvState { return c.(*contCase).Env }, func(c Case, e EnvState) {
+		cc := c.(*contCase)
+		cc.Env, cc.EnvAfter = e, nil // one world, one environment, constant while both run
+	})
 }
 
 func contStats(c *contCase, st *Stats, r *contRun) {
@@ -340,6 +411,9 @@ func contStats(c *contCase, st *Stats, r *contRun) {
 	}
 	if !r.accepted {
 		st.Count("skipped.not_accepted")
+	}
+	if c.EnvAfter != nil {
+		st.Count("fired.env_changed_after_declaration")
 	}
 	if len(c.States) > 0 || len(c.CliToks) > 0 {
 		st.Nontrivial(fnv64(fmt.Sprintf("%d %v %v %q %v %d %s", c.Decl.Kind, c.Decl.IsArg, c.Decl.Def != "" || len(c.Decl.DefList) > 0, c.States, c.Env.Describe(), len(c.CliToks), c.Shape)))
@@ -384,19 +458,30 @@ func contPhases(tier string) []PhaseCfg {
 	radix := []int{7, 2, 2, 3, 5, 5, 4, 3}
 	if tier == "thorough" {
 		return []PhaseCfg{{Name: "structural-sweep", Radix: radix, Count: product(radix), P: map[string]int{"seeded_tail": 1}},
-			{Name: "seeded", Count: 3_000_000}}
+			{Name: "seeded", Count: 3_000_000}, pairPhase(4_000, 300_000, tier)}
 	}
 	return []PhaseCfg{{Name: "structural-sweep", Radix: radix, Count: product(radix), P: map[string]int{"seeded_tail": 1}},
-		{Name: "seeded", Count: 40_000}}
+		{Name: "seeded", Count: 40_000}, pairPhase(4_000, 300_000, tier)}
 }
 
 func (c06Prop) Phases(tier string) []PhaseCfg { return contPhases(tier) }
 
-func (c06Prop) Gen(t *Tape, ph *PhaseCfg) Case { return genContainer(t) }
+func (c06Prop) Gen(t *Tape, ph *PhaseCfg) Case {
+	if ph.P["pair"] == 1 {
+		return genPair(t, func() Case { return genContainerOpt(t, true) })
+	}
+	return genContainer(t)
+}
 
 func (c06Prop) Exec(cc Case, st *Stats) *Violation {
+	if g, ok := cc.(*genericPair); ok {
+		return contPairExec(g, st, c06Verdict)
+	}
 	c := cc.(*contCase)
-	r := runContainer(c)
+	return c06Verdict(c, runContainer(c), st)
+}
+
+func c06Verdict(c *contCase, r *contRun, st *Stats) *Violation {
 	contStats(c, st, r)
 	if r.p.End == EndBudget {
 		return &Violation{Clause: "terminates", Detail: "the run exceeded the " + r.p.Budget + " budget", Observed: describeEnd(r.p)}
@@ -458,11 +543,22 @@ func (c15Prop) Rule() string {
 
 func (c15Prop) Phases(tier string) []PhaseCfg { return contPhases(tier) }
 
-func (c15Prop) Gen(t *Tape, ph *PhaseCfg) Case { return genContainer(t) }
+func (c15Prop) Gen(t *Tape, ph *PhaseCfg) Case {
+	if ph.P["pair"] == 1 {
+		return genPair(t, func() Case { return genContainerOpt(t, true) })
+	}
+	return genContainer(t)
+}
 
 func (c15Prop) Exec(cc Case, st *Stats) *Violation {
+	if g, ok := cc.(*genericPair); ok {
+		return contPairExec(g, st, c15Verdict)
+	}
 	c := cc.(*contCase)
-	r := runContainer(c)
+	return c15Verdict(c, runContainer(c), st)
+}
+
+func c15Verdict(c *contCase, r *contRun, st *Stats) *Violation {
 	contStats(c, st, r)
 	if r.p.End == EndBudget {
 		return &Violation{Clause: "terminates", Detail: "the run exceeded the " + r.p.Budget + " budget", Observed: describeEnd(r.p)}
